@@ -342,22 +342,28 @@ func runC20L(_ *testing.T, c c20LifeCase) (out kit.Outcome) {
 	var clock atomic.Int64
 	var mu sync.Mutex
 	var polls []pollRec
-	supplier := func() (float64, bool) {
-		s := clock.Add(1)
-		g := kit.GoID()
-		mu.Lock()
-		polls = append(polls, pollRec{s, g})
-		mu.Unlock()
-		if c.Slow > 0 {
-			time.Sleep(time.Duration(c.Slow) * period / 2)
+	perGauge := map[int]int{} // polls seen per gauge
+	supplierOf := func(idx int) core.MetricSupplier {
+		return func() (float64, bool) {
+			s := clock.Add(1)
+			g := kit.GoID()
+			mu.Lock()
+			polls = append(polls, pollRec{s, g})
+			perGauge[idx]++
+			mu.Unlock()
+			if c.Slow > 0 {
+				time.Sleep(time.Duration(c.Slow) * period / 2)
+			}
+			return 1, true
 		}
-		return 1, true
 	}
 	nPolls := func() int { mu.Lock(); defer mu.Unlock(); return len(polls) }
-	b.reg.RegisterGauge("g0", supplier)
-	b.reg.RegisterGauge("g1", supplier)
-	b.reg.RegisterGauge("g2", supplier)
+	pollsOf := func(idx int) int { mu.Lock(); defer mu.Unlock(); return perGauge[idx] }
+	b.reg.RegisterGauge("g0", supplierOf(0))
+	b.reg.RegisterGauge("g1", supplierOf(1))
+	b.reg.RegisterGauge("g2", supplierOf(2))
 	gauges := 3
+	sawLateGauge := false
 	running := false                   // model: between a Start and the next returned Stop
 	var intervalStart int64            // stamp taken right before the Start that opened the current interval
 	var quietFrom int64 = clock.Add(1) // polls stamped after this (and before the next Start) are illegal
@@ -415,8 +421,21 @@ func runC20L(_ *testing.T, c c20LifeCase) (out kit.Outcome) {
 	for i, op := range c.Ops {
 		switch op.K {
 		case "gauge":
-			b.reg.RegisterGauge(fmt.Sprintf("g%d", gauges), supplier)
+			idx := gauges
+			b.reg.RegisterGauge(fmt.Sprintf("g%d", idx), supplierOf(idx))
 			gauges++
+			if running {
+				// a gauge registered while the registry is started is polled like the others: counted in rounds of
+				// the poller (polls of g0), not in time
+				sawLateGauge = true
+				base := pollsOf(0)
+				if !waitFor(30*time.Second, func() bool { return pollsOf(idx) > 0 || pollsOf(0) >= base+20 }) {
+					return finish(kit.Outcome{Harness: "poller made no progress within 30 s (inconclusive)"})
+				}
+				if pollsOf(idx) == 0 {
+					return finish(kit.Viol(c.Backend+":late-gauge-not-polled", "op %d: gauge g%d was registered while the registry was started; the poller has since gone through %d further rounds (polls of g0) without ever asking it", i, idx, pollsOf(0)-base))
+				}
+			}
 		case "pause":
 			time.Sleep(time.Duration(op.N) * period)
 			if !running && sawStop {
@@ -504,6 +523,9 @@ func runC20L(_ *testing.T, c c20LifeCase) (out kit.Outcome) {
 	out.Labels = []string{"backend:" + c.Backend, fmt.Sprintf("slow-supplier:%v", c.Slow > 0)}
 	if sawDoubleStart {
 		out.Labels = append(out.Labels, "start-start")
+	}
+	if sawLateGauge {
+		out.Labels = append(out.Labels, "gauge-registered-while-started")
 	}
 	return out
 }
